@@ -55,11 +55,6 @@ fn pipeline_inv(op: &Op, ctx: &dyn Context, operands: &mut dyn CoordinateSet) ->
 
 // ----- C O N S T R U C T O R ---------------------------------------------------------
 
-#[rustfmt::skip]
-pub const GAMUT: [OpParameter; 1] = [
-    OpParameter::Flag { key: "inv" },
-];
-
 pub fn new(parameters: &RawParameters, ctx: &dyn Context) -> Result<Op, Error> {
     let definition = &parameters.definition;
     let thesteps = definition.split_into_steps();
@@ -70,9 +65,10 @@ pub fn new(parameters: &RawParameters, ctx: &dyn Context) -> Result<Op, Error> {
         steps.push(Op::op(step_parameters, ctx)?);
     }
 
-    let mut params = ParsedParameters::new(parameters, &GAMUT)?;
-    // Directional omission belongs to the individual steps. Seen from here, a
-    // modifier leading the first, or trailing the last step looks like our own
+    // Modifiers belong to the individual steps. Seen from here, a modifier leading
+    // the first, or trailing any step looks like our own (with the rest of the
+    // pipeline as its value), so we neither interpret `inv` nor keep the omissions
+    let mut params = ParsedParameters::new(parameters, &[])?;
     params.boolean.remove("omit_fwd");
     params.boolean.remove("omit_inv");
     let fwd = InnerOp(pipeline_fwd);
